@@ -77,13 +77,16 @@ func (s *sessionMetadatasState) Create(id string, clientID string, connectedAt i
 		Peer:        s.peer,
 		LastAdded:   clock(),
 	}
-	err := s.set(session)
-	if err != nil {
-		return err
-	}
+	// serialise first: a record that cannot be broadcast (a client identifier that is not
+	// valid UTF-8) must not be stored either, it would be listed here for ever, unknown to
+	// every peer, and make every full-state snapshot of this node fail to serialise.
 	buf, err := proto.Marshal(&api.StateBroadcastEvent{
 		SessionMetadatas: []*api.SessionMetadatas{&session},
 	})
+	if err != nil {
+		return err
+	}
+	err = s.set(session)
 	if err != nil {
 		return err
 	}
